@@ -83,7 +83,7 @@ func run(c *mc.Ctx) {
 		if root.Trigger == "voice" {
 			evs = append(append([]string{}, world.Events...), "dial:answered")
 		}
-		cfg := sm.Cfg{Depth: depth, Events: evs, Regimes: []bool{true}, ChoiceBound: 0}
+		cfg := sm.Cfg{Ctx: c, Depth: depth, Events: evs, Regimes: []bool{true}, ChoiceBound: 0}
 		cfg.OnNewState = func(t *sm.Trans) { onState(c, t) }
 		st := sm.Search(root, cfg)
 		c.Inc("roots")
@@ -625,6 +625,12 @@ func init() {
 		Assumptions: []string{"single faults only in the quick tier", "asset faults are edits of the asset document between sprints; the session is re-read with assets.IgnoreMissing as hosts do"},
 		Run:         run,
 		Replay:      replayFn,
+		Single:      sm.Single,
+		Classify:    sm.SkipHangs,
+		HangLimit:   15 * time.Second,
+		SingleLimit: 30 * time.Second,
+		MaxBadCases: 2,
+		MemLimitKB:  8 << 20,
 		Budget:      map[string]time.Duration{"quick": 8 * time.Minute, "thorough": 30 * time.Minute},
 		Guards: func(r *mc.Result, tier string) []string {
 			var f []string
